@@ -38,6 +38,7 @@ def isPkt : List Op → Prop
 
 def isFlush : List Op → Prop
   | .flush :: _ => True
+  | .flushold _ _ :: _ => True
   | _ => False
 
 /-- First group of invariants: mutex ownership, object initialisation, no panic, well-formedness.
@@ -315,6 +316,18 @@ theorem invA_stepStart {s s' : State} {t : Tid} (h : InvA s) (hpc : (s.thr t).pc
         · intro l c' e hm; simp at e; subst e; exact vals_lt h (by simp [hv, hm])
         · simp
         · simp [ThreadWF, isFlush]
+    | flushold T ca =>
+      simp only [hp] at hs
+      cases hv : s.conns.vals with
+      | nil => simp only [hv] at hs; cases hs; exact invA_finishOp h t hh
+      | cons c r =>
+        simp only [hv] at hs; cases hs
+        apply invA_thr h t
+        · simp [hh]
+        · intro c' e; simp at e; subst e; exact vals_lt h (by simp [hv])
+        · intro l c' e hm; simp at e; subst e; exact vals_lt h (by simp [hv, hm])
+        · simp
+        · simp [ThreadWF, isFlush]
     | pkt k kind =>
       simp only [hp] at hs
       cases hg : s.conns.get k with
@@ -344,6 +357,7 @@ theorem invA_stepIns {s s' : State} {t : Tid} {sid : SId} (h : InvA s) (hpc : (s
   | cons op rest =>
     cases op with
     | flush => simp [hp, isPkt] at hpk
+    | flushold T ca => simp [hp, isPkt] at hpk
     | pkt k kind =>
       simp only [hp] at hs
       cases hf : s.free with
@@ -380,6 +394,46 @@ theorem invA_stepIns {s s' : State} {t : Tid} {sid : SId} (h : InvA s) (hpc : (s
             · left; exact e
 
 
+/-- skipFlush with queued pages from a Flush* visit (c.mu free): `t` takes c.mu and enters the callback. -/
+theorem invA_flushDeliver {s : State} {t : Tid} {c : CId} {l : List CId} (h : InvA s) (hpc : (s.thr t).pc = .lock c)
+    (hmu : (s.obj c).mu = none) (hsn : (s.thr t).snap = some l) : InvA (flushDeliver s t c) := by
+  have hh : (s.thr t).pc.holds = none := by simp [hpc]
+  have hc : c < s.nextC := h.ptr_lt t c (by simp [hpc])
+  have hst := h.inited c hc
+  have hsl := h.snap_lt t
+  have hfl := h.wf_snap t l hsn
+  unfold flushDeliver
+  dsimp only
+  cases hst2 : (s.obj c).stream with
+  | none => exact absurd hst2 hst
+  | some sid =>
+    dsimp only
+    split
+    · apply h.frame t c <;> fr_side
+    · apply h.frame t c <;> fr_side
+
+/-- closeConnection from a Flush* visit (c.mu free): `t` takes c.mu, completes the stream, → `rm`. -/
+theorem invA_lockClose {s : State} {t : Tid} {c : CId} {l : List CId} (h : InvA s) (hpc : (s.thr t).pc = .lock c)
+    (hmu : (s.obj c).mu = none) (hsn : (s.thr t).snap = some l) :
+    InvA (doClose (setObj s c { s.obj c with mu := some t }) t c) := by
+  have hh : (s.thr t).pc.holds = none := by simp [hpc]
+  have hc : c < s.nextC := h.ptr_lt t c (by simp [hpc])
+  have hst := h.inited c hc
+  have hsl := h.snap_lt t
+  have hfl := h.wf_snap t l hsn
+  cases hst2 : (s.obj c).stream with
+  | none => exact absurd hst2 hst
+  | some sid =>
+    simp only [doClose, setObj_obj, if_true, hst2]
+    apply h.frame t c <;> fr_side
+
+theorem invA_lockSkip {s : State} {t : Tid} {c : CId} (h : InvA s) (hpc : (s.thr t).pc = .lock c) :
+    InvA (advance s t) := by
+  have hh : (s.thr t).pc.holds = none := by simp [hpc]
+  have hc : c < s.nextC := h.ptr_lt t c (by simp [hpc])
+  exact invA_advance h t c rfl (fun _ _ => rfl) rfl (fun _ _ hm => Or.inl hm) (fun _ hm => Or.inl hm)
+    (fun _ => h.inited c hc) (Or.inl ⟨rfl, hh⟩) (h.wf_snap t)
+
 theorem invA_stepLock {s s' : State} {t : Tid} {c : CId} (h : InvA s) (hpc : (s.thr t).pc = .lock c)
     (hs : stepLock s t c = some s') : InvA s' := by
   have hh : (s.thr t).pc.holds = none := by simp [hpc]
@@ -400,20 +454,24 @@ theorem invA_stepLock {s s' : State} {t : Tid} {c : CId} (h : InvA s) (hpc : (s.
       have hfl := h.wf_snap t l hsn
       simp only [hsn] at hs
       split at hs
+      · -- FlushWithOptions
+        split at hs
+        · cases hs; exact invA_lockSkip h hpc
+        · split at hs
+          · split at hs
+            · cases hs; exact invA_flushDeliver h hpc hmu hsn
+            · cases hs; exact invA_lockSkip h hpc
+          · split at hs
+            · cases hs; exact invA_lockClose h hpc hmu hsn
+            · cases hs; exact invA_lockSkip h hpc
+      · -- FlushAll
+        split at hs
+        · cases hs; exact invA_lockSkip h hpc
+        · split at hs
+          · cases hs; exact invA_flushDeliver h hpc hmu hsn
+          · cases hs; exact invA_lockClose h hpc hmu hsn
+      · next hx _ => cases hx
       · cases hs
-        exact invA_advance h t c rfl (fun _ _ => rfl) rfl (fun _ _ hm => Or.inl hm) (fun _ hm => Or.inl hm)
-          (fun _ => hst) (Or.inl ⟨rfl, hh⟩) (h.wf_snap t)
-      · split at hs
-        · cases hst2 : (s.obj c).stream with
-          | none => exact absurd hst2 hst
-          | some sid =>
-            simp only [hst2] at hs; cases hs
-            apply h.frame t c <;> fr_side
-        · cases hst2 : (s.obj c).stream with
-          | none => exact absurd hst2 hst
-          | some sid =>
-            simp only [doClose, setObj_obj, if_true, hst2] at hs; cases hs
-            apply h.frame t c <;> fr_side
     | none =>
       have hpk := h.wf_ptr t c (by simp [hpc]) hsn
       simp only [hsn] at hs
@@ -422,6 +480,7 @@ theorem invA_stepLock {s s' : State} {t : Tid} {c : CId} (h : InvA s) (hpc : (s.
       | cons op rest =>
         cases op with
         | flush => simp [hp, isPkt] at hpk
+        | flushold T ca => simp [hp, isPkt] at hpk
         | pkt k kind =>
           simp only [hp] at hs
           split at hs
@@ -438,8 +497,12 @@ theorem invA_stepLock {s s' : State} {t : Tid} {c : CId} (h : InvA s) (hpc : (s.
                 · rfl
                 · intro _ _ hm; exact Or.inl hm
                 · intro _ hm; exact Or.inl hm
-                · simp
-                · left; exact ⟨by simp, hh⟩
+                · intro _
+                  simp only [addLog_obj, setObj_obj, if_true]
+                  split <;> simp [hst]
+                · left; refine ⟨?_, hh⟩
+                  simp only [addLog_obj, setObj_obj, if_true]
+                  split <;> rfl
                 · exact h.wf_snap t
             · cases hst2 : (s.obj c).stream with
               | none => exact absurd hst2 hst
@@ -514,7 +577,7 @@ theorem invA_reachable (progs : Tid → List Op) : ∀ s, (sys progs).Reachable 
 
 theorem step_conns {s s' : State} {t : Tid} (hs : step s t = some s') :
     s'.conns = s.conns ∨ (∃ k c, s'.conns = s.conns.set k c) ∨ (∃ k, s'.conns = s.conns.del k) := by
-  simp only [step, stepStart, stepIns, stepLock, stepCb, stepRm, doClose, advance, finishOp, doPanic] at hs
+  simp only [step, stepStart, stepIns, stepLock, stepCb, stepRm, flushDeliver, doClose, advance, finishOp, doPanic] at hs
   repeat' split at hs
   all_goals first
     | (cases hs; done)
@@ -546,6 +609,7 @@ theorem enabled_start {s : State} {t : Tid} (hpc : (s.thr t).pc = .start) (hp : 
   | cons op rest =>
     cases op with
     | flush => dsimp only; (repeat' split) <;> simp
+    | flushold T ca => dsimp only; (repeat' split) <;> simp
     | pkt k kind => dsimp only; (repeat' split) <;> simp
 
 theorem enabled_ins {s : State} {t : Tid} {sid : SId} (h : InvA s) (hpc : (s.thr t).pc = .ins sid) : step s t ≠ none := by
@@ -556,6 +620,7 @@ theorem enabled_ins {s : State} {t : Tid} {sid : SId} (h : InvA s) (hpc : (s.thr
   | cons op rest =>
     cases op with
     | flush => simp [hq, isPkt] at hpk
+    | flushold T ca => simp [hq, isPkt] at hpk
     | pkt k kind => dsimp only; (repeat' split) <;> simp
 
 theorem enabled_lock {s : State} {t : Tid} {c : CId} (h : InvA s) (hpc : (s.thr t).pc = .lock c)
@@ -563,9 +628,8 @@ theorem enabled_lock {s : State} {t : Tid} {c : CId} (h : InvA s) (hpc : (s.thr 
   simp only [step, hpc, stepLock, hmu]
   cases hsn : (s.thr t).snap with
   | some l =>
-    dsimp only
     simp only [Option.isSome_none, Bool.false_eq_true, if_false]
-    (repeat' split) <;> simp [doClose, doPanic]
+    (repeat' split) <;> simp_all
   | none =>
     have hpk := h.wf_ptr t c (by simp [hpc]) hsn
     cases hq : (s.thr t).prog with
@@ -573,6 +637,7 @@ theorem enabled_lock {s : State} {t : Tid} {c : CId} (h : InvA s) (hpc : (s.thr 
     | cons op rest =>
       cases op with
       | flush => simp [hq, isPkt] at hpk
+      | flushold T ca => simp [hq, isPkt] at hpk
       | pkt k kind =>
         dsimp only
         simp only [Option.isSome_none, Bool.false_eq_true, if_false]
